@@ -484,6 +484,17 @@ func (s SelectStatement) Children() []Node {
 	}
 	for _, join := range s.Joins {
 		join := join // G601: Create local copy to avoid memory aliasing
+		// The parser records the table in front of the first JOIN both in From and as
+		// that join's Left. A derived table there must be reached once, not once per
+		// reference: reached twice, a nest of such queries is traversed 2^depth times.
+		if join.Left.Subquery != nil {
+			for i := range s.From {
+				if s.From[i].Subquery == join.Left.Subquery {
+					join.Left.Subquery = nil
+					break
+				}
+			}
+		}
 		children = append(children, &join)
 	}
 	if s.Where != nil {
